@@ -1,0 +1,49 @@
+//
+// Copyright (c) SAS Institute Inc.
+//
+// Licensed under the Apache License, Version 2.0 (the "License");
+// you may not use this file except in compliance with the License.
+// You may obtain a copy of the License at
+//
+//     http://www.apache.org/licenses/LICENSE-2.0
+//
+// Unless required by applicable law or agreed to in writing, software
+// distributed under the License is distributed on an "AS IS" BASIS,
+// WITHOUT WARRANTIES OR CONDITIONS OF ANY KIND, either express or implied.
+// See the License for the specific language governing permissions and
+// limitations under the License.
+//
+
+package signdeb
+
+import (
+	"bytes"
+	"crypto"
+	_ "crypto/md5"
+	_ "crypto/sha1"
+	"runtime"
+	"testing"
+	"time"
+
+	"github.com/blakesmith/ar"
+)
+
+// A control.tar member that ends early must not leave the goroutine that
+// parses it blocked on the pipe
+func TestSignTruncatedControl(t *testing.T) {
+	blob := ar.GLOBAL_HEADER + arMember("debian-binary", "100644", "4", "2.0\n") +
+		arMember("control.tar", "100644", "10240", "truncated")
+	before := runtime.NumGoroutine()
+	for i := 0; i < 10; i++ {
+		if _, err := Sign(bytes.NewReader([]byte(blob)), nil, crypto.SHA256, "builder"); err == nil {
+			t.Fatal("expected an error")
+		}
+	}
+	deadline := time.Now().Add(5 * time.Second)
+	for runtime.NumGoroutine() > before {
+		if time.Now().After(deadline) {
+			t.Fatalf("leaked %d goroutines", runtime.NumGoroutine()-before)
+		}
+		time.Sleep(10 * time.Millisecond)
+	}
+}
